@@ -984,7 +984,8 @@ def heap_text(c):
         out.append({"create": "create(t%d)" % o.get("t", 0), "add": "add(b%d,s%d)" % (o.get("b", 0), o.get("s", 0)), "build": "build(b%d)" % o.get("b", 0),
                     "append": "append(k%d)" % o.get("k", 0), "getblockid": "getblockid(t%d,s%d)" % (o.get("t", 0), o.get("s", 0)),
                     "seal": "seal(t%d)" % o.get("t", 0), "reload": "reload(t%d)" % o.get("t", 0),
-                    "newbuilder": "newbuilder", "buildroot": "buildroot(b%d)" % o.get("b", 0)}[k])
+                    "newbuilder": "newbuilder", "buildroot": "buildroot(b%d)" % o.get("b", 0),
+                    "xappend": "xappend(k%d,t%d)" % (o.get("k", 0), o.get("t", 0))}[k])
     return " ".join(out)
 
 
